@@ -56,6 +56,22 @@ CLAIMED = {
         technique="symbolic execution of real Python source over finite enum sorts + SMT strings; doc-table oracle; "
                   "frame obligations; native replay with pysdmx objects",
         design_ref="§2 C27"),
+    "C16": dict(
+        level="proof",
+        text="Exhaustive exceptional-path execution of the real configured_connection (with its callees inlined): "
+             "every fallible step forks into success/failure and the with-body may end normally, with an Exception "
+             "or with a non-Exception BaseException; on EVERY resulting path the session directory is removed and "
+             "the connection closed; the file-backed database path is proved (SMT strings) to lie inside the "
+             "session directory; run()/run_sdmx acquire a connection only through that context manager; the "
+             "history clause is proved as strong exception safety of Exceptions.dataset_output in visit_Start (and "
+             "of the decimal globals, see C30).",
+        note="Failure points are the fallible call sites and the with-body, not arbitrary asynchronous points; "
+             "conn.close()/rmtree(ignore_errors) assumed not to raise; cleanup inside the loaders (DROP/unregister) "
+             "is not under contract because those objects die with the connection; VirtualCounter / viral registry "
+             "history effects are not covered here.",
+        technique="exceptional-path symbolic execution with effect traces (acquire/release obligations per path), "
+                  "SMT strings for the path clause, native fault-injection replay",
+        design_ref="§2 C16"),
 }
 
 NOT_YET = "not built yet in this round; planned per DESIGN.md §2 (no claim until its check exists and is sound)"
